@@ -263,18 +263,21 @@ class Prop(object):
                         ta = ta.replace('\n\n', '\nComment: came with the first\n\n', 1) if not ta.startswith('-----BEGIN PGP SIGNED') else ta
                     x = self._load(ca, ta)
                     y = self._load(cb, tb)
+                    # what the second object carries and writes before anything is done to the first (an implementation may give objects headers of its
+                    # own; the point is that they are this object's)
+                    y_before, y_text = dict(y.ascii_headers), str(y)
+                    x_before = dict(x.ascii_headers)
                     x.ascii_headers['Version'] = 'set on the first object'
                     z = self._load(cb, tb)
-                    for who, o in (('the second object (loaded before the header was set)', y), ('a third object (loaded afterwards)', z)):
-                        if dict(o.ascii_headers):
-                            probs.append('%s carries headers %r that were never supplied to it' % (who, dict(o.ascii_headers)))
-                        if str(o) != tb:
-                            probs.append('%s is written out differently from the armor it was loaded from' % who)
-                    want = {'Version': 'set on the first object'}
-                    if with_hdr and not ta.startswith('-----BEGIN PGP SIGNED'):
-                        want['Comment'] = 'came with the first'
-                    if dict(x.ascii_headers) != want:
-                        probs.append('the first object carries %r, supplied %r' % (dict(x.ascii_headers), want))
+                    for who, o in (('the second object (loaded before the header was set)', y), ('a third object (loaded afterwards from the same text)', z)):
+                        if dict(o.ascii_headers) != y_before:
+                            probs.append('%s carries headers %r, it had %r before a header was set on the first object' % (who, dict(o.ascii_headers), y_before))
+                        if str(o) != y_text:
+                            probs.append('%s is written out differently after a header was set on another object' % who)
+                    if with_hdr and not ta.startswith('-----BEGIN PGP SIGNED') and x_before.get('Comment') != 'came with the first':
+                        probs.append('the first object does not carry the header line of its armor: %r' % (x_before,))
+                    if dict(x.ascii_headers) != dict(x_before, Version='set on the first object'):
+                        probs.append('the first object carries %r after Version was set on %r' % (dict(x.ascii_headers), x_before))
                 except Exception as e:
                     probs.append('raises %r' % (e,))
                 r.outcomes['headerhist:' + ('ok' if not probs else 'violation')] += 1
